@@ -223,7 +223,7 @@ func (x *Exec) obligeNamed(s *State, name, kind string, goal *Term, p string, te
 		if body.K == TApp && body.Op == "=>" {
 			ante, body = body.Args[0], body.Args[1]
 		}
-		if body.K == TApp && body.Op == "and" && len(body.Args) <= 12 {
+		if body.K == TApp && body.Op == "and" && len(body.Args) <= 40 {
 			for i, g := range body.Args {
 				x.obligeNamed(s, fmt.Sprintf("%s.q%d", name, i+1), kind, Forall(goal.Bound, Implies(ante, g), goal.Pats...), p, text)
 			}
@@ -1339,7 +1339,14 @@ func (x *Exec) loadDeref(s *State, ref *Term, t types.Type, p token.Pos) *Term {
 	}
 	hn := "H_" + shortTypeName(t) + "_val"
 	h := x.heapGet(s, hn, ArrayOf(SInt, x.eng.tm.sortOf(t)))
-	return Select(h, ref)
+	v := Select(h, ref)
+	switch t.Underlying().(type) {
+	case *types.Slice, *types.Pointer, *types.Map:
+		if !ref.hasBound {
+			s.assume(x.typeInv(s, v, t, 0))
+		}
+	}
+	return v
 }
 
 func (x *Exec) storeDeref(s *State, ref *Term, t types.Type, v *Term) {
